@@ -19,7 +19,7 @@ CLAIMED = {
         note=CORR + "go-crc24q is modelled and compared on every frame.", design="5/C01",
         technique="Coq proof (case analysis of the framing phases, CRC linearity) + extracted-model correspondence"),
     "C02": dict(
-        text="Theorem C02_lossless (axiom-free): for every input the modelled stream handler returns, and the delivered raw bytes "
+        text="Theorem C02_every_schedule (axiom-free): the same over the channel network of Pipe.v with one consumer, for all capacities of the byte, message and consumer channels and every schedule: executions are finite and end with the consumer holding the lossless segmentation, the framer halted and the output channel closed. Theorem C02_lossless (axiom-free): for every input the modelled stream handler returns, and the delivered raw bytes "
              "concatenate to the input with no empty message (induction on fuel with the invariant delivered++pushback++unread = "
              "input). Correspondence on ~7k streams incl. all strings over {d3,00,01,3e} up to length 6, every truncation offset, "
              "channel capacities {0,1,2,64}^2 and producer/consumer delays; closing is observed on the real channel.",
@@ -77,11 +77,11 @@ CLAIMED = {
              "display strings is not modelled (the harness parses them back); no leap seconds, as in Go.", design="5/C06",
         technique="Coq proof (per-constellation invariant, rollover arithmetic by lia/nia) + history correspondence"),
     "C15": dict(
-        text="Theorem C15_state_independent (axiom-free): what the model's GetMessage reports about a frame apart from the two time "
+        text="Theorem C15_stream_state_independent (axiom-free): what the stream handler delivers for a byte stream (types, raw bytes, error texts, raw timestamps, whether a time could be derived) is the same for every handler state. Theorem C15_state_independent (axiom-free): what the model's GetMessage reports about a frame apart from the two time "
              "values is the same for every handler state; the decoders do not take the handler at all (by type). The heap-level "
              "half (hidden caches, aliasing, races) is carried by the harness: batches of frames decoded fresh / after others / by "
              "2-8 handlers in parallel goroutines / as fanned-out copies with a scribbling consumer, display repeated three times, "
-             "all under the race detector, and every frame's decoded view compared with the state-free model.",
+             "all under the race detector, and every frame's decoded view compared with the state-free model; plus the frames interleaved with false starts through HandleMessages with a lagging consumer that re-inspects every kept message after the handler has finished.",
         note=CORR + "Partial: aliasing, package-level caches and data races are facts about the Go heap that an immutable functional "
              "model cannot express; they are sampled under -race.", design="5/C15",
         technique="Coq proof (state independence of the model) + race-detector differential runs"),
@@ -153,7 +153,8 @@ CLAIMED = {
              "waits_rtcmlogger regenerated from the source); in every reachable configuration in which main has returned, the "
              "pass-through output and the record both equal the input block list, for all capacities, latencies and schedules. "
              "Oracle: the built rtcmlogger binary on empty/short/long/binary inputs with many stdin chunkings and pauses; stdout "
-             "and the day's record file compared byte for byte with the input after exit.",
+             "and the day's record file compared byte for byte with the input after exit; and the repository's start() "
+             "in-process (go test -overlay, newLogWriter replaced) with a record writer that stalls, inputs up to 1.2 MB.",
         note=CORR + "Blocks are abstract values; that the copy loop hands over the bytes it read (not an aliased buffer) is "
              "observed by the oracle only. Found and fixed: the recorder was not awaited at end of input (known_findings.txt).",
         design="5/C16", technique="Coq proof (invariant over all interleavings) + source fact + binary-level oracle"),
@@ -189,11 +190,21 @@ CLAIMED = {
     "C18": dict(
         text="Theorem C18_last_n (axiom-free, polymorphic): for every capacity N>=1 and every addition sequence the modelled queue's "
              "snapshot is the last min(N, added) elements in order and it never holds more than N (invariant by induction). "
-             "Correspondence: all add/snapshot sequences up to length 8 for capacities 1..4 (thorough 12 / 1..8), runs of 10^5 adds; "
-             "concurrent adders/readers under the race detector with every snapshot checked on the spot.",
-        note=CORR + "Partial: the concurrent half (RWMutex atomicity, linearisation) is the race detector's and the snapshot oracle's "
-             "verdict on sampled schedules.", design="5/C18",
-        technique="Coq proof (invariant by induction) + exhaustive small-sequence correspondence + race detector"),
+             "Theorems C18_concurrent_snapshots / C18_linearizable (ConcQueue.v, axiom-free): any number of goroutines running any "
+             "sequences of Add/GetMessages under an abstract RWMutex, with NON-atomic bodies (evict, insert, read keys, collect "
+             "are separate steps on the shared map): in every reachable configuration of every schedule the committed "
+             "operations form a legal sequential history in which each operation lies between its call and return, every "
+             "result handed to a goroutine is its operation's result in that history, every snapshot is the last min(N,k) of "
+             "the first k additions in commit order (a contiguous run consistent with real time), and the queue never exceeds "
+             "N. The facts queue_add_locked / queue_get_locked (Add/GetMessages run entirely under the write/read lock and do "
+             "not re-acquire it, directly or through a callee) are regenerated from the source by genfacts; if either is false "
+             "the theorems no longer build. Correspondence: all add/snapshot sequences up to length 8 for capacities 1..4 "
+             "(thorough 12 / 1..8), runs of 10^5 adds; concurrent adders and readers under the race detector with a progress "
+             "watchdog (snapshot contiguity, real-time bounds, size).",
+        note=CORR + "Partial: the RWMutex is the abstract one (who holds it); Go's fairness rule that a waiting writer blocks new "
+             "readers only removes schedules. Data-race freedom of the Go code is the race detector's verdict on sampled "
+             "schedules; that the lock statements guard the same mutex is read off the source by a syntactic pattern.", design="5/C18",
+        technique="Coq proof (induction over operation sequences; invariant over all interleavings of lock-protected non-atomic bodies) + source lock facts + race-detector runs"),
     "C19": dict(
         text="Theorems C19_escaped, C19_sanitise (axiom-free): in the page model every traffic-derived part passes through the "
              "sanitiser and sanitised text contains neither '<' nor '>'. The harness calls the real Status() with crafted buffers and "
